@@ -13,12 +13,14 @@ def main():
                 ['secretstore/zz_verif_env.go', 'secretstore/zz_verif_rand.go', 'C11/zz_verif_c11.go'],
                 installers=[crypto.install, crypto.install_proto], init_pkgs=[MOD + '/pkg/errcode'], prelude_pkgname='secretstore')
     P = MOD + '/pkg/secretstore.'
-    chk.load([P + n for n in ('VerifC11Symmetry', 'VerifC11Devices', 'VerifC11ImportGuards', 'VerifC11Witness')])
+    chk.load([P + n for n in ('VerifC11Symmetry', 'VerifC11Devices', 'VerifC11ImportGuards', 'VerifC11Isolation', 'VerifC11Witness')])
     cfg = {'timeout_ms': 60000, 'unwind': 12}
     jobs = [Job(P + 'VerifC11Symmetry', (0,), cfg=cfg), Job(P + 'VerifC11Symmetry', (1,), cfg=cfg),
             Job(P + 'VerifC11Devices', (0,), cfg=cfg), Job(P + 'VerifC11Devices', (1,), cfg=cfg)]
     for sc in range(6):
         jobs.append(Job(P + 'VerifC11ImportGuards', (sc,), cfg=cfg))
+    for o in (0, 1):
+        jobs.append(Job(P + 'VerifC11Isolation', (o,), cfg=cfg))
     jobs.append(Job(P + 'VerifC11Witness', (), witness=True, cfg=cfg))
     res = chk.run_jobs(jobs)
     finish(chk, res, t,
